@@ -11,7 +11,12 @@ import (
 	"github.com/nspcc-dev/neo-go/pkg/core/native/noderoles"
 	"github.com/nspcc-dev/neo-go/pkg/core/state"
 	"github.com/nspcc-dev/neo-go/pkg/core/storage"
+	"github.com/nspcc-dev/neo-go/pkg/core/transaction"
+	"github.com/nspcc-dev/neo-go/pkg/io"
+	"github.com/nspcc-dev/neo-go/pkg/smartcontract"
+	"github.com/nspcc-dev/neo-go/pkg/smartcontract/callflag"
 	"github.com/nspcc-dev/neo-go/pkg/smartcontract/trigger"
+	"github.com/nspcc-dev/neo-go/pkg/vm/emit"
 	"github.com/nspcc-dev/neo-go/pkg/crypto/keys"
 	"github.com/nspcc-dev/neo-go/pkg/util"
 )
@@ -128,6 +133,7 @@ func Compute(bc *core.Blockchain) Digest {
 		cs = append(cs, string(b))
 	}
 	d["contracts"] = h(cs)
+	d["invoke"] = h(TestInvocations(bc))
 	var roles []any
 	for _, r := range []noderoles.Role{noderoles.StateValidator, noderoles.Oracle, noderoles.NeoFSAlphabet, noderoles.P2PNotary} {
 		ks, hh, err := bc.GetDesignatedByRole(r)
@@ -135,6 +141,72 @@ func Compute(bc *core.Blockchain) Digest {
 	}
 	d["roles"] = h(roles)
 	return d
+}
+
+// zeroArg is the argument a test invocation passes for a parameter of the given type.
+func zeroArg(t smartcontract.ParamType) any {
+	switch t {
+	case smartcontract.BoolType:
+		return false
+	case smartcontract.IntegerType:
+		return int64(1)
+	case smartcontract.ByteArrayType, smartcontract.StringType, smartcontract.AnyType:
+		return []byte{0x01}
+	case smartcontract.Hash160Type:
+		return util.Uint160{}
+	case smartcontract.Hash256Type:
+		return util.Uint256{}
+	case smartcontract.ArrayType:
+		return []any{}
+	default:
+		return nil
+	}
+}
+
+// TestInvocations runs, RPC invokefunction style (test VM over the current state, nothing is stored), every ABI method of
+// every deployed contract with fixed arguments and returns (contract, method, VM state, GAS consumed) - the execution
+// answers of the node at this height (fees included: base execution fee, storage price, whitelisted fixed fees).
+func TestInvocations(bc *core.Blockchain) []string {
+	var out []string
+	for id := int32(1); id <= MaxContractID; id++ {
+		hsh, err := bc.GetContractScriptHash(id)
+		if err != nil {
+			continue
+		}
+		c := bc.GetContractState(hsh)
+		if c == nil {
+			continue
+		}
+		for _, m := range c.Manifest.ABI.Methods {
+			if len(m.Name) == 0 || m.Name[0] == '_' || m.Name == "update" || m.Name == "destroy" {
+				continue
+			}
+			args := make([]any, 0, len(m.Parameters))
+			for _, p := range m.Parameters {
+				args = append(args, zeroArg(p.Type))
+			}
+			w := io.NewBufBinWriter()
+			emit.AppCall(w.BinWriter, hsh, m.Name, callflag.All, args...)
+			if w.Err != nil {
+				out = append(out, fmt.Sprintf("%d:%s:ERR:%v", id, m.Name, w.Err))
+				continue
+			}
+			tx := transaction.New(w.Bytes(), 0)
+			tx.Signers = []transaction.Signer{{Account: util.Uint160{}, Scopes: transaction.None}}
+			tx.ValidUntilBlock = bc.BlockHeight() + 1
+			ic, err := bc.GetTestVM(trigger.Application, tx, nil)
+			if err != nil {
+				out = append(out, fmt.Sprintf("%d:%s:ERR:%v", id, m.Name, err))
+				continue
+			}
+			ic.VM.SetGasLimit(20_0000_0000)
+			ic.VM.LoadWithFlags(tx.Script, callflag.All)
+			_ = ic.VM.Run()
+			out = append(out, fmt.Sprintf("%d:%s:%s:%d", id, m.Name, ic.VM.State(), ic.VM.GasConsumed()))
+			ic.Finalize()
+		}
+	}
+	return out
 }
 
 // Diff lists the components on which two digests disagree.
